@@ -28,7 +28,7 @@ TRACE = ("FaultTrace.tla", "FaultTrace.cfg")
 
 # cheapest first; the quick tier runs all of them when the measured budget
 # allows, else a prefix of this list (and says so in the stats)
-SCRIPTS = ["params", "refuse", "ue14", "vnadata2", "trl", "calstore", "te10", "corr", "lm", "e12", "ue10",
+SCRIPTS = ["params", "refuse", "ue14", "vnadata2", "trl", "calstore", "te10", "corr", "lm", "lmw", "e12", "ue10",
            "t8", "t8p3", "load", "bulk", "u16", "vnadata", "yaml", "t16"]
 QUICK_BUDGET_S = 120.0
 
@@ -168,6 +168,107 @@ def issues_from_crashes(ctx, crashes):
     return issues
 
 
+def _suspicious(lines):
+    """Cheap screening of one episode with the FaultX rules re-stated in
+    Python.  It decides nothing: it only routes the episode either into the
+    bulk shards or into a TLC run of its own, so that a tree with hundreds of
+    failing fault points does not make the sharded validation re-read whole
+    shards once per rejection.  TLC validates every episode either way."""
+    pc, n, faulted, pending = 1, None, False, False
+    try:
+        for ln in lines:
+            ev = json.loads(ln)
+            if ev["e"] == "Reset":
+                n = ev["n"]
+            elif ev["e"] == "Step":
+                if ev["i"] != pc or (ev["fault"] and faulted):
+                    return True
+                if ev["fault"] and not ev["ok"]:
+                    if ev["digest"] == "ERR":
+                        return True
+                    if ev["err"] != "ENOMEM" and not (
+                            ev["refok"] == 0 and ev["err"] == ev["referr"]
+                            and ev["digest"] == ev["refdigest"]):
+                        return True
+                    faulted = pending = True
+                else:
+                    if (ev["ok"] != ev["refok"] or ev["digest"] == "ERR" or
+                            ev["digest"] != ev["refdigest"] or
+                            (not ev["ok"] and ev["err"] != ev["referr"])):
+                        return True
+                    faulted = faulted or bool(ev["fault"])
+                    pending = False
+                    pc += 1
+            elif ev["e"] == "End":
+                return pending or pc != n + 1 or ev["live"] != 0
+    except (ValueError, KeyError, TypeError):
+        return True
+    return True                      # no End
+
+
+MAX_SINGLE = 600        # episodes validated in a TLC run of their own
+
+
+def _validate(ctx, trace_path):
+    """validate_sharded-compatible result for a multi-episode trace."""
+    eps = vlib.split_episodes(trace_path)
+    bulk = os.path.join(ctx.work, "faultx-bulk.ndjson")
+    single = []
+    with open(bulk, "w") as fp:
+        for start, lines in eps:
+            if _suspicious(lines):
+                single.append((start, lines))
+            else:
+                fp.writelines(lines)
+    res = vlib.validate_sharded(TRACE[0], TRACE[1], bulk, ctx.work,
+                                shards=vlib.NCPU, max_failures=40)
+    res["screened_out"] = len(single)
+    if len(single) > MAX_SINGLE:
+        res["errors"].append(
+            "%d episodes look rejected; only the first %d were validated "
+            "one by one, the others were not validated in this run"
+            % (len(single), MAX_SINGLE))
+        single = single[:MAX_SINGLE]
+
+    def one(item):
+        j, (start, lines) = item
+        p = os.path.join(ctx.work, "faultx-single-%d.ndjson" % j)
+        with open(p, "w") as fp:
+            fp.writelines(lines)
+        r = vlib.tlc_validate_trace(TRACE[0], TRACE[1], p, ctx.work)
+        gen = r["generated"]
+        out = None
+        if not r["accepted"]:
+            if r.get("error") and r["mismatch"] is None and r["matched"] == 0:
+                out = ("error", r["out"][-2000:])
+            else:
+                r1 = vlib.tlc_validate_trace(TRACE[0], TRACE[1], p, ctx.work)
+                gen += r1["generated"]
+                if not r1["accepted"]:       # a rejection must repeat
+                    idx = r1["matched"]
+                    out = ("fail", {
+                        "lines": lines, "index": idx,
+                        "event": lines[idx] if idx < len(lines) else "",
+                        "mismatch": r1["mismatch"], "start": start,
+                        "expected": r1.get("expected"),
+                        "out": r1["out"][-1500:]})
+        os.unlink(p)
+        return gen, len(lines), out
+
+    with concurrent.futures.ThreadPoolExecutor(vlib.NCPU) as ex:
+        for gen, nev, out in ex.map(one, enumerate(single)):
+            res["generated"] += gen
+            res["events"] += nev
+            res["episodes"] += 1
+            if out is None:
+                continue
+            if out[0] == "error":
+                res["errors"].append(out[1])
+            else:
+                res["failures"].append(out[1])
+    return res
+
+
 def run_fault(ctx, exe, tier, seed):
     t0 = time.time()
     issues = []
@@ -235,8 +336,8 @@ def run_fault(ctx, exe, tier, seed):
                 ctx.sample(json.loads(line))
             else:
                 break
-    res = vlib.validate_sharded(TRACE[0], TRACE[1], tr, ctx.work,
-                                shards=vlib.NCPU, max_failures=400)
+    res = _validate(ctx, tr)
+    stats["episodes_validated_singly"] = res["screened_out"]
     ctx.machinery_errors += res["errors"]
     issues += issues_from_validation(ctx, res)
     stats["events"] = res["events"]
@@ -245,6 +346,19 @@ def run_fault(ctx, exe, tier, seed):
     stats["rejected_episodes"] = len(res["failures"])
     stats["wall_s"] = round(time.time() - t0, 1)
     return issues, stats
+
+
+def owns_replay(path):
+    """is this replay file one of ours? (case id faultx:<script>:<k>)"""
+    try:
+        with open(path) as fp:
+            first = fp.readline()
+    except OSError:
+        return False
+    m = common.CASE_RE.search(first)
+    cid = m.group(1) if m else (first.split()[1] if first.startswith("case ")
+                                and len(first.split()) > 1 else "")
+    return cid.startswith("faultx:")
 
 
 def replay(ctx, exe, path):
